@@ -137,7 +137,28 @@ def check_range(rep, fn, li, lo_ok, hi):
     ok = False
     if dom[0] == "call" and dom[1] == ("builtin", "range") and len(dom[2]) == 2:
         lo, up = dom[2]
+
+        def unclamp(t):
+            """min(k, n - 1) with n the number of training samples is k for every k the models can be built with (a
+            sample has at most n - 1 neighbours; larger values fail in create_arcs): the clamp is dropped."""
+            if not isinstance(t, tuple) or not t:
+                return t
+            if t[0] == "min" and len(t) == 2 and isinstance(t[1], tuple) and len(t[1]) == 2:
+                a, b = t[1]
+                for x, y in ((a, b), (b, a)):
+                    if y[0] == "bin" and y[1] == "-" and y[3] == ("const", 1) and (
+                            (y[2][0] == "call" and y[2][1] == ("builtin", "len") and len(y[2][2]) == 1
+                             and (y[2][2][0] == ("param", "X_train") or (y[2][2][0][0] == "attr" and y[2][2][0][2] == "nodes")))
+                            or (y[2][0] == "attr" and y[2][2] == "n_nodes")):
+                        return x
+            if isinstance(t, tuple):
+                return tuple(unclamp(x) if isinstance(x, tuple) else x for x in t)
+            return t
+        lo2, up2 = unclamp(lo), unclamp(up)
         ok = lo_ok(lo) and up == ("bin", "+", *sorted([("const", 1), hi], key=repr))
+        if not ok and (lo2, up2) != (lo, up):
+            from ..rules_heap import _sub, lin, lin_eq
+            ok = lo_ok(lo2) and lin_eq(_sub(lin(up2), lin(hi)), {1: 1})
     rep.fn("BEST-range", fn, f"for k in {show(dom)}", ok,
            "candidates must be every k from the lower bound to max_k inclusive, ascending, step 1", line=li.line)
     return ("iter", dom, li.lid)
